@@ -33,6 +33,30 @@ def seed_classes(rng, nbytes, nrand, all_bits=True, nzero_walk=8):
         out.append(("random", rand_bytes(rng, nbytes)))
     return out
 
+def pick_seed(rng, nbytes):
+    """mostly random, often structured: one bit, one byte, one zero word, repeated word, all ones, high bits"""
+    r = rng.random()
+    if r < 0.55:
+        return rand_bytes(rng, nbytes)
+    if r < 0.65:
+        return (1 << rng.randrange(nbytes * 8)).to_bytes(nbytes, "little")
+    if r < 0.72:
+        b = bytearray(nbytes); b[rng.randrange(nbytes)] = rng.choice([1, 0x80, 0xff]); return bytes(b)
+    if r < 0.82:
+        # random, but one 32-bit (or 64-bit) word zero
+        b = bytearray(rand_bytes(rng, nbytes)); wsz = rng.choice([4, 8]) if nbytes >= 8 else 4
+        k = rng.randrange(nbytes // wsz); b[k * wsz:(k + 1) * wsz] = bytes(wsz); return bytes(b)
+    if r < 0.88:
+        w = rand_bytes(rng, 4); return (w * (nbytes // 4 + 1))[:nbytes]
+    if r < 0.93:
+        return b"\xff" * nbytes
+    if r < 0.97:
+        b = bytearray(nbytes)
+        for k in range(0, nbytes, 4):
+            b[k + 3] = 0x80
+        return bytes(b)
+    return bytes(nbytes)
+
 FILL_LENGTHS = ([0, 1, 2, 3, 4, 5, 6, 7, 8, 9, 15, 16, 17, 31, 32, 33, 63, 64, 65, 255, 256, 257, 258,
                  1023, 1024, 1025, 1026, 1027, 1028, 1029, 1030, 2047, 2048, 2049, 2050])
 
@@ -366,6 +390,26 @@ def tie_C07(ctx):
             cases.append([f"new 0 {g} seed {rand_bytes(rng, nb).hex()}", f"{nat} 0", "ser 0", f"{nat} 0", "ser 0"])
     ctx.absolute("state transition on all n basis states of every linear engine (+ random states) vs model", cases,
                  mask=only_state)
+    # every call kind is a whole number of native steps: state after `op` == state of a twin after k native steps
+    adv, ameta = [], []
+    for g in LINEAR:
+        info = GENS[g]
+        nb, nat, w = info["seed"], native(g), info["w"]
+        for op, k in [("u32", 1), ("u64", 2 if w == 32 else 1)] + \
+                     [(f"fill {n}", (2 * (n // 8) + (2 if n % 8 > 4 else 1 if n % 8 else 0)) if w == 32 else (n // 8 + (1 if n % 8 else 0)))
+                      for n in (1, 4, 5, 8, 9, 12, 16, 24, 31, 64, 100)]:
+            for _ in range(ctx.scale(2, 20)):
+                seed = pick_seed(rng, nb)
+                if not any(seed):
+                    continue
+                adv.append([f"new 0 {g} seed {seed.hex()}", "clone 1 0"] + op_lines(0, [op]) + ["ser 0"] + [f"{nat} 1"] * k + ["ser 1"])
+                ameta.append((g, op, k))
+    h2, _ = ctx.absolute("state transition through next_u32 / next_u64 / fill_bytes(n) equals k native steps (state images) vs model", adv,
+                         mask=only_state)
+    for (g, op, k), c, o in zip(ameta, adv, h2):
+        if o[3] != o[-1]:
+            ctx.fail("transition", f"{g}: `{op}` does not advance the state by {k} steps of the engine (another state transition is in use)",
+                     c, expected=o[-1], actual=o[3])
     # GF(2)-linearity of the real step on random triples
     tri, meta = [], []
     for g in LINEAR:
@@ -613,7 +657,7 @@ def tie_C10(ctx):
     for g in GENS:
         info = GENS[g]
         for i in range(ctx.scale(24, 300)):
-            seed = rand_bytes(rng, info["seed"])
+            seed = pick_seed(rng, info["seed"])
             pre = history(rng, g, rng.randrange(0, 6))
             if "blk" in info:
                 pre = ["u32"] * rng.randrange(0, info["blk"] + 2) + pre
@@ -677,13 +721,18 @@ def tie_C11(ctx):
     cases, meta = [], []
     for g in SERDE:
         info = GENS[g]
-        for i in range(ctx.scale(20, 300)):
-            seed = rand_bytes(rng, info["seed"])
-            pre = history(rng, g, rng.randrange(0, 5))
+        for i in range(ctx.scale(24, 300)):
+            seed = pick_seed(rng, info["seed"])
+            pre = history(rng, g, rng.randrange(0, 5)) if i % 3 else []
             if "blk" in info:
-                pre = ["u32"] * rng.choice([0, 1, 2, 255, 256, 257, rng.randrange(0, 600)]) + pre
-                if info["cls"] == "block64" and rng.random() < 0.5:
-                    pre = pre + ["u32"]          # half-consumed word
+                # every (index, half_used) configuration is a snapshot point: index = k (mod 256)
+                ks = list(range(0, 258)) if ctx.thorough else [0, 1, 2, 127, 254, 255, 256, 257]
+                k = ks[i % len(ks)] if i % 2 == 0 else rng.randrange(0, 600)
+                nat1 = "u64" if info["cls"] == "block64" else "u32"
+                pre = [nat1] * k + pre
+                if info["cls"] == "block64" and (i % 4 < 2):
+                    pre = pre + ["u32"]          # half-consumed word (half_used = true)
+                ctx.dist[f"{g}:index={k % 256 if k % 256 or k == 0 else 256}"] += 1
             cont = history(rng, g, rng.randrange(2, 6))
             c = [f"new 0 {g} seed {seed.hex()}"] + op_lines(0, pre) + ["ser 0", "rt 1 0", "ser 0", "ser 1", "eq 0 1"]
             at = len(c) - 5
@@ -1309,7 +1358,7 @@ def tie_C19(ctx):
             g = rng.choice(list(GENS))
             how = rng.choice(["seed", "seed", "u64", "zero", "sameu64"])
             if how == "seed":
-                ctor = f"new {k} {g} seed {rand_bytes(rng, GENS[g]['seed']).hex()}"
+                ctor = f"new {k} {g} seed {pick_seed(rng, GENS[g]['seed']).hex()}"
             elif how == "zero":
                 ctor = f"new {k} {g} seed {'00' * GENS[g]['seed']}"
             elif how == "u64":
